@@ -4,6 +4,7 @@
 //! from a tape; only protocol-admissible actions are ever chosen.  Monitors are the executable twins of
 //! the call-site clauses.  `search` enumerates tapes exhaustively up to a length; it never decides a
 //! property, it only supplies a concrete failing history for a violation the verifier reported.
+mod threads;
 use callbag::{Message, Source};
 use std::panic::{catch_unwind, AssertUnwindSafe};
 use std::sync::{Arc, Mutex};
@@ -464,6 +465,16 @@ fn main() {
                 Some((t, o)) => { out(&t, &o, total - budget); std::process::exit(1); }
                 None => { println!("{}", serde_json::json!({"tape": null, "violations": [], "runs": total - budget, "max_len": len})); std::process::exit(0); }
             }
+        }
+        Some("threads") => {
+            // replay threads block combine2 | replay threads stress <take1|take2|merge2|merge3|combine2> <runs>
+            let rep = match a.get(2).map(|s| s.as_str()) {
+                Some("block") => threads::combine_block(),
+                Some("stress") => threads::stress(&a[3], a.get(4).and_then(|s| s.parse().ok()).unwrap_or(20000)),
+                _ => { eprintln!("usage: replay threads block combine2 | replay threads stress <scenario> <runs>"); std::process::exit(2); }
+            };
+            println!("{}", serde_json::json!({ "tape": null, "violations": rep.violations.iter().map(|(p, w)| serde_json::json!({"property": p, "what": w})).collect::<Vec<_>>(), "history": rep.log, "panicked": null, "runs": rep.runs }));
+            std::process::exit(if rep.violations.is_empty() { 0 } else { 1 });
         }
         _ => { eprintln!("usage: replay run <scenario> <tape-json> | replay search <scenario> [--property Cxx] [--len N] [--budget N]"); std::process::exit(2); }
     }
